@@ -98,3 +98,14 @@ Theorem C05_model_rules_are_grammar_rules :
   /\ map (fun r => kind_name (fst r)) (filter (fun r => skipped (fst r)) rules) = g4_skipped.
 Proof. exact (conj model_rules_are_grammar_rules (conj model_token_numbers model_skip_set)). Qed.
 Print Assumptions C05_model_rules_are_grammar_rules.
+
+(* the generated lexer / parser / listener modules and the error listeners are (up to layout, comments,
+   docstrings) the code the model was validated against; every context class dispatches to the listener
+   method of its rule; the aggregator overrides exactly the four enter callbacks agg_step composes *)
+Theorem C05_parser_code_unchanged :
+  parser_package_digests = base_parser_package_digests
+  /\ parser_dispatch = base_parser_dispatch
+  /\ aggregator_listener_methods
+     = [s"enterDocumented_command"; s"enterCommand_invocation"; s"enterDocumented_module"; s"enterBracket_doccomment"].
+Proof. exact (conj parser_package_unchanged (conj parser_dispatch_unchanged aggregator_listener_methods_unchanged)). Qed.
+Print Assumptions C05_parser_code_unchanged.
